@@ -3,7 +3,7 @@
    lexer as written in the pinned tree, [repaired] the lexer with the two proposed repairs
    (flush of trailing unrecognised bytes; return after the short-escape snippet). *)
 From Coq Require Import List NArith ZArith Bool.
-From PV Require Import Model.XLexer Model.XLexerTables Proofs.XLexerLoop Proofs.XLexer Proofs.XLexerParser.
+From PV Require Import Model.XLexer Model.XLexerTables Proofs.XLexerLoop Proofs.XLexer Proofs.XLexerParser Proofs.XLexerBraces.
 Import ListNotations.
 
 (* the repaired lexer: for every text the prelude accepts, lexing ends normally (fuel length+1
@@ -53,6 +53,19 @@ Theorem C29_prelude_reject_reports_error : forall V s d, xlex parser_cfg V s = X
   d_level d = L_Error /\ diag_in (length s) d.
 Proof. exact prelude_reject_reports_error_lemma. Qed.
 Print Assumptions C29_prelude_reject_reports_error.
+
+(* fuseBraces accounts for every bracket token the main loop remembered in l.braces (the tokens
+   pushed with the BracketKeyword action, with their ids and spans): its id is one end of a fused
+   pair, or its span is a snippet of an unmatched-delimiter diagnostic of level Error.  This is a
+   statement about the model's bracket records; that the records are exactly the bracket tokens
+   of the stream is how the model pushes them, and is checked on the implementation by the oracle. *)
+Theorem C29_brackets_matched_or_reported : forall tl st st' fz,
+  fuse_braces parser_cfg tl st = (st', fz) ->
+  forall b, In b (braces st) ->
+    (exists p, In p fz /\ (fst p = b_id b \/ snd p = b_id b))
+    \/ (exists d, In d (diags st') /\ (d_class d = DUnmatched /\ d_level d = L_Error) /\ In (b_sp b) (d_spans d)).
+Proof. exact (fuse_braces_accounts parser_cfg). Qed.
+Print Assumptions C29_brackets_matched_or_reported.
 
 (* non-vacuity *)
 Example C29_nonvacuous :
